@@ -294,6 +294,37 @@ def main(argv=None):
                     selected[u.name] = picked[u.name]
         groups = {g: [u for u in us if selected[u.name]] for g, us in groups.items()}
         groups = {g: us for g, us in groups.items() if us}
+    # quick tier: a global time budget (sum of the measured harness costs, units/timings.json, unknown = 120 s), spent round-robin
+    # over the groups so that every backend keeps its most important harnesses; what does not fit runs in the thorough tier.
+    # (vp check stops a quick command after 900 s; 16 cores, builds take 1-2 min.)
+    if tier == "quick" and not only:
+        budget = float(os.environ.get("VERIF_QUICK_BUDGET_S", "6500"))
+        cost = lambda un, h: timings.get(f"{un}::{h.name}", 120.0)
+        queues = {g: [(u.name, h) for u in us for h in selected[u.name]] for g, us in groups.items()}
+        # within a group keep the round-robin order over its units
+        for g, us in groups.items():
+            lists = [list(selected[u.name]) for u in us]
+            q, i = [], 0
+            while any(i < len(l) for l in lists):
+                for u, l in zip(us, lists):
+                    if i < len(l):
+                        q.append((u.name, l[i]))
+                i += 1
+            queues[g] = q
+        kept = {un: [] for un in selected}
+        spent, i = 0.0, 0
+        while any(i < len(q) for q in queues.values()):
+            for g, q in queues.items():
+                if i < len(q):
+                    un, h = q[i]
+                    c = cost(un, h)
+                    if spent + c <= budget or not kept[un] and i == 0:
+                        kept[un].append(h)
+                        spent += c
+            i += 1
+        selected = {un: hs_ for un, hs_ in kept.items() if hs_}
+        groups = {g: [u for u in us if u.name in selected] for g, us in groups.items()}
+        groups = {g: us for g, us in groups.items() if us}
     plan = []
     try:
         for g, us in groups.items():
